@@ -6,24 +6,26 @@ outer iteration, the f / g evaluations of the penalty initialisation), every dir
 callback.
 
 Monitor (derived from alm.tpp: the outer loop makes exactly one problem call of its own per outer iteration,
-eval_proj_multipliers, and none after the inner solve returned; it looks at the stop request only through the
-inner solver's returned status):
+eval_proj_multipliers, and none after the inner solve returned; ALMSolver::stop() sets ALM's own flag and the
+inner solver's; ALM reads its flag once per outer iteration, right after the inner solve):
   * event accounting: `[f g] (projmult [inner solve])*`, nothing after the last inner solve;
   * the inner solve in flight when stop() lands obeys its own bound (checks/c19.py BOUNDS, relative to its first
-    event); if it returns Interrupted no further inner solve is started, ALM makes no further call and returns
-    Interrupted;
-  * if it returns its natural status (the request landed after its last poll: in its final callback, or a
-    higher-priority status held at the poll) — or the request landed in eval_proj_multipliers — the flag persists:
-    ALM either exits with its natural status or starts the next inner solve, which must end at its *first*
-    loop-head check: 0 iterations, ≤ 1 callback, ≤ init + A_init events (A_init: PANOC / ZeroFPR 4, PANTR 3,
-    FISTA 5 + 2 per step-size backtrack of its first pass).  So after the stop:  the rest of the iteration in
-    flight, then per further outer iteration 1 + init + A_init events and no inner iteration;
-  * an inner solve that returned Interrupted is the last one; ALM's status is Interrupted iff it was;
+    event) and is the LAST one, whatever status it returns (Interrupted, or a natural status because the request
+    landed after its last poll — in its final callback — or a higher-priority status held at the poll): ALM
+    makes no further call at all;
+  * if the request lands in one of ALM's own calls (eval_proj_multipliers at the top of an outer iteration, the
+    f / g evaluations of the penalty initialisation) the inner solve of that same outer iteration is still
+    started — with the flag set: it must end at its *first* loop-head check (0 iterations, ≤ 1 callback,
+    ≤ init + A_init events; A_init: PANOC / ZeroFPR 4, PANTR 3, FISTA 5 + 2 per step-size backtrack of its
+    first pass) — and is the last one;
+  * an inner solve that returned Interrupted is the last one and ALM reports Interrupted; once stop() has landed
+    ALM reports Interrupted or the natural final status of the outer iteration in flight (Converged; MaxIter
+    only in the last admissible iteration; MaxTime); without stop() never Interrupted;
   * the returned x, y satisfy the C03 relations w.r.t. the last inner solve's (y_in, Σ, err_z), and C01's KKT
     monitor when ALM reports Converged with the ApproxKKT criterion.
-Findings (printed as KNOWN-FINDING while open): initial step-size backtracking not interruptible (same key as the
-single-solver check); ALM keeps starting inner solves after stop() when each one exits at its first check with a
-status that outranks Interrupted (key C19-alm-continues-after-stop-when-inner-exits-naturally).
+Repaired in /repo (fixes/C19-alm-stop-flag.diff; key C19-alm-continues-after-stop-when-inner-exits-naturally, its
+corpus op stays): ALM used to look at the request only through the inner solver's returned status and kept
+starting inner solves when each one exited at its first check with a status that outranks Interrupted.
 """
 import os
 import random
@@ -43,8 +45,8 @@ COUNTS = {}
 
 # inputs kept from earlier failures, run first
 CORPUS = [
-    # alm.stop() from inside event 1 (eval_proj_multipliers): two further inner solves, both Converged at their
-    # first check, ALM returns Converged after 15 further calls (known finding KEY_CHAIN)
+    # alm.stop() from inside event 1 (eval_proj_multipliers): before the repair two further inner solves, both
+    # Converged at their first check, ALM returned Converged after 15 further calls (finding KEY_CHAIN, fixed)
     'almstop solver=panoc dir=anderson stack=panoc-anderson n=1 m=3 Q=1:3fe0000000000000 c=1:c019000000000000 q4=1:3ff0000000000000 A=3:c000000000000000,0000000000000000,0000000000000000 b=3:0000000000000000,0000000000000000,0000000000000000 Clb=1:3fe8000000000000 Cub=1:3fe8000000000000 Dlb=3:c000000000000000,bfe0000000000000,0000000000000000 Dub=3:7ff0000000000000,3fe0000000000000,0000000000000000 l1=0: x0=1:0000000000000000 y0=3:0000000000000000,0000000000000000,0000000000000000 Sig=3:3ff0000000000000,4040000000000000,3ff0000000000000 tol=3ee4f8b588e368f1 dtol=3f847ae147ae147b almiter=3 maxiter=1 crit=0 hess=1 fd=0 mem=5 L0=0000000000000000 penfac=4024000000000000 initpen=3ff0000000000000 usesig=1 inittol=3ff0000000000000 advseed=231 stopat=1 stopcb=0',
 ]
 
@@ -172,9 +174,15 @@ def monitor(op_line, out_line, st):
         if s['status'] == 'Interrupted' and k != len(sol) - 1:
             return (f'inner solve #{k} returned Interrupted but ALM started another inner solve '
                     f'(event {sol[k + 1]["first"]})')
-    if sol and (r['status'] == 'Interrupted') != (sol[-1]['status'] == 'Interrupted'):
-        return f'ALM status {r["status"]} but the last inner solve returned {sol[-1]["status"]}'
     t0 = r['stoptick']
+    if sol and sol[-1]['status'] == 'Interrupted' and r['status'] != 'Interrupted':
+        return f'ALM status {r["status"]} but the last inner solve returned Interrupted'
+    if sol and t0 is None and (r['status'] == 'Interrupted') != (sol[-1]['status'] == 'Interrupted'):
+        return f'ALM status {r["status"]} but the last inner solve returned {sol[-1]["status"]} (no stop request)'
+    if t0 is not None and r['status'] not in ('Interrupted', 'Converged', 'MaxIter', 'MaxTime'):
+        return f'ALM status {r["status"]} after alm.stop()'
+    if t0 is not None and r['status'] == 'MaxIter' and len(sol) != op.nat('almiter', 100) and m > 0:
+        return f'ALM status MaxIter after {len(sol)} of {op.nat("almiter", 100)} outer iterations'
     if t0 is None:
         if r['status'] == 'Interrupted':
             return 'ALM returned Interrupted although stop() was never called'
@@ -214,16 +222,21 @@ def monitor(op_line, out_line, st):
         if s['status'] == 'Busy':
             return f'inner solve #{k} returned Busy'
         bump('later_solve_status_' + s['status'])
-    if later:
+    # ---- strict accounting: nothing after the inner solve of the outer iteration in flight ----------------
+    allowed = 0 if j is not None else 1          # landed in an ALM-level call: that iteration's inner solve
+    if later and j is None:
         bump('stop_survived_to_next_inner_solve')
-    if len(later) >= 2:
+    if len(later) > allowed:
         sts = [sol[k]['status'] for k in later]
-        finding = (f'alm.stop() landed at event {t0}; ALM started {len(later)} further inner solves (statuses '
-                   f'{sts}, 0 iterations each) and made {T - t0} further calls before returning {r["status"]}: '
-                   f'an inner solve that exits at its first check with a status that outranks Interrupted hides the '
-                   f'request from ALM, which never looks at the flag itself', KEY_CHAIN)
-    if j is not None and sol[j]['status'] == 'Interrupted' and later:
-        return 'inner solve started after the interrupted one'
+        inflight = (f'inner solve #{j} in flight returned {sol[j]["status"]}' if j is not None
+                    else 'it landed in a call of the ALM loop itself')
+        finding = (f'alm.stop() landed at event {t0} ({inflight}); ALM started {len(later)} further inner '
+                   f'solve(s) (statuses {sts}) and made {T - t0} further calls before returning {r["status"]}: '
+                   f'once the flag is set and the inner solve of the outer iteration in flight has returned, no '
+                   f'further inner solve may be started', KEY_CHAIN)
+    last_seen = sol[j] if j is not None else (sol[later[0]] if later else None)
+    if last_seen is not None and last_seen['status'] != 'Interrupted' and not finding:
+        bump('inner_hid_request_alm_' + r['status'])
     mm = outputs_monitor(op, op_line, out_line, r, st)
     if mm:
         return mm
@@ -333,8 +346,12 @@ def alm_stage(rep, broken, tier):
         if per[solver].get('alm_status_Interrupted', 0) == 0:
             broken.append(f'[alm/{solver}] stop injection never produced an Interrupted ALM run')
         if per[solver].get('stop_survived_to_next_inner_solve', 0) == 0:
-            broken.append(f'[alm/{solver}] no stop request landed where only the *next* inner solve can see it '
-                          f'(eval_proj_multipliers / final callback)')
+            broken.append(f'[alm/{solver}] no stop request landed in a call of the ALM loop itself '
+                          f'(eval_proj_multipliers), where only the inner solve started next can see it')
+        if per[solver].get('inner_hid_request_alm_Interrupted', 0) == 0:
+            broken.append(f'[alm/{solver}] no run in which the inner solve that saw the request returned a '
+                          f'natural status and ALM reported Interrupted by its own flag (the repaired path of '
+                          f'fixes/C19-alm-stop-flag.diff was not exercised)')
     rep.cov['alm_monitor_counts'] = {k: dict(sorted(v.items())) for k, v in per.items()}
 
 
